@@ -6,7 +6,7 @@
    scripts calling back into the process, any callback scripts) and every list of environment events (pause, play,
    resume, kill, fail, late callbacks, cancellation, completions, ticks) — no bound. *)
 From Coq Require Import List String Bool ZArith.
-From Plumpy Require Import Val Mon PortModel Model Run LifeBook LifeSx LifeFx LifeSteps.
+From Plumpy Require Import Val Mon PortModel Model Run LifeBook LifeSx LifeFx LifeSteps LifePtr.
 Import ListNotations.
 
 (* in every run, every step function / continuation that starts (EvStep) and every sample taken by code inside a
@@ -31,6 +31,15 @@ Theorem C05_pause_at_step_boundary :
     paused w = None /\ suspended_in_step w.
 Proof. exact stepping_not_paused. Qed.
 Print Assumptions C05_pause_at_step_boundary.
+
+(* in every run a pending pause (`_pausing` set) is the armed, still pending pause action of a step in flight — a pause
+   request is never left pointing at a cancelled or finished action, and none is pending between steps (Life/LifePtr.v) *)
+Theorem C05_pending_pause_is_armed :
+  forall c es w a, run c es = Some w -> pausing w = Some a ->
+    stepping w = true /\ intr w = Some a /\
+    exists ac, get_act w a = Some ac /\ a_fut ac = AfPending /\ is_pause (a_kind ac) = true.
+Proof. exact pending_pause_is_armed. Qed.
+Print Assumptions C05_pending_pause_is_armed.
 
 (* pause() between steps: paused at once, the message becomes the status, the previous status is remembered ... *)
 Theorem C05_pause_now :
